@@ -1,11 +1,16 @@
-(* C15 - Definitions table aligns all definitions at one cluster column. Proved so far: the two
-   facts that make the column - every term is padded to the same cluster width, and the
-   column combiner starts the right column at one cluster offset on every row. Their
-   composition through InsertDefinitionsTable (paragraph joining, insertion at pos) is judged
-   on every generated case by the executable checker check_C15. *)
+(* C15 - Definitions table aligns all definitions at one cluster column. Proved: the two facts
+   that make the column - every term is padded to the same cluster width, and the column
+   combiner starts the right column at one cluster offset on every row - and their
+   composition C15_table: InsertDefinitionsTable inserts, for the definitions in input order,
+   the rows entry_rows (first row: two spaces, the term, padding to the longest term, two
+   spaces, "- ", the first wrapped line; further rows: longest + 4 spaces, two spaces, the
+   wrapped line), each definition's rows joined by the line separator and the definitions
+   joined by the paragraph separator; nothing for an empty list. Word preservation inside the
+   wrapped definition text is C07_wrap_words. *)
 From Coq Require Import List Bool ZArith Lia.
 Import ListNotations.
-From Rosed Require Import Base.Res Base.ListX Gem.Segment Gem.GString Model.Manip Proofs.SeamP Proofs.C15P.
+From Rosed Require Import Base.Res Base.ListX Base.Str Base.Utf8 Gem.Segment Gem.GString Model.Tb Model.Manip Model.Table Model.Options Model.Editor Model.Ops
+     Proofs.SeamP Proofs.C15P Proofs.C15Q.
 Open Scope Z_scope.
 
 Theorem C15_term_column : forall (C : Classifier) (K : ClassifierOk) term longest,
@@ -26,3 +31,27 @@ Theorem C15_right_column_offset : forall (C : Classifier) (K : ClassifierOk) (le
   glen (l ++ repeat SP (Z.to_nat (total - glen l))) = total.
 Proof. intros C K. exact right_column_offset. Qed.
 Print Assumptions C15_right_column_offset.
+
+(* entry_rows term longest R, for R = r0 :: rs the wrapped lines of the definition text:
+     "  " term pad "  " "- " r0   ::   map (fun l => (longest + 4 spaces) "  " l) rs
+   entry longest d rb is entry_rows for definition d whose wrapped block is rb (one empty line if none) *)
+Theorem C15_table : forall (C : Classifier) (K : ClassifierOk) (U : Upper) pos defs width opts e rbs,
+  let o := with_defaults opts in
+  let longest := fold_left lg_step defs (-1) in
+  let lsep := decode (o_linesep o) in
+  let psep := decode (o_parasep o) in
+  Forall2 (fun d rb => wrap (decode (snd d)) (width - (longest + 2) - 2 - 2) lsep = Ok rb) defs rbs ->
+  Forall (fun d => starts_ok (decode (fst d)) /\ ends_ok (decode (fst d))) defs ->
+  insert_definitions_table_opts pos defs width opts e =
+    match defs with
+    | [] => Ok e
+    | _ => insert pos (encode (join psep (map (join lsep) (map (fun p => entry longest (fst p) (snd p)) (combine defs rbs)))
+                               ++ (if negb (o_notrailing o) then lsep else []))) e
+    end.
+Proof. intros C K U. exact deftable_spec. Qed.
+Print Assumptions C15_table.
+
+(* the longest term really is the longest: every term fits its column *)
+Theorem C15_longest : forall (C : Classifier) defs d, In d defs -> glen (decode (fst d)) <= fold_left lg_step defs (-1).
+Proof. intros C defs. exact (proj2 (longest_ge defs (-1))). Qed.
+Print Assumptions C15_longest.
